@@ -329,3 +329,27 @@ Qed.
 From SWH Require Import Generated.
 Lemma tree_is_git_type : mem_bytes (bs "tree") GIT_OBJECT_TYPES = true.
 Proof. vm_compute. reflexivity. Qed.
+
+(* ------------------------------------------------------------------ additions (dimension audit) *)
+(* contrapositive of injectivity: entry sets with different (mode, name, target)
+   triples never share a manifest (used for the one-field variants of the harness:
+   a changed / swapped target or mode, a renamed, dropped or added entry) *)
+Theorem dir_manifest_separates : forall es es', Decodable es -> Decodable es' ->
+  ~ Permutation (map triple_of es) (map triple_of es') -> dir_manifest es <> dir_manifest es'.
+Proof.
+  intros es es' D D' NP E. apply NP. apply dir_manifest_injective; assumption.
+Qed.
+
+Section WithHashRaw.
+  Variable H : bytes -> bytes.
+
+  (* a recorded raw manifest replaces the entries in compute_hash, whatever it is (b"" included) *)
+  Theorem dir_raw_manifest_wins : forall d m,
+    d_raw_manifest d = Some m -> dir_compute_hash H d = H m.
+  Proof. intros d m R. unfold dir_compute_hash. rewrite R. reflexivity. Qed.
+
+  (* raw_manifest=None given explicitly is the default: the id of the entries *)
+  Theorem dir_no_raw_is_dir_id : forall es,
+    dir_compute_hash H {| d_entries := es; d_raw_manifest := None |} = dir_id H es.
+  Proof. intros es. reflexivity. Qed.
+End WithHashRaw.
